@@ -69,7 +69,7 @@ pub fn reasons(e: &EnumSpec) -> Vec<String> {
         no(v.fields.iter().any(|f| f.name.as_deref().map_or(false, |n| ODD_FIELD_NAMES.contains(&n))), "field name");
         no(v.disabled() && v.is_default(), "disabled default variant");
         if let Some(d) = &v.disc {
-            no(d.text.contains("BASE") || d.text.contains('$'), "discriminant expression");
+            no(d.text.contains("BASE") || d.text.contains("_DISCRIMINANT") || d.text.contains('$'), "discriminant expression");
         }
         for p in &v.disc_passthrough {
             no(!(p.starts_with("strum(") || p == "default" || p.starts_with("doc")), "pass-through form");
